@@ -1763,8 +1763,8 @@ class Interp:
             dk = _dyn_find(b[1], k)
             if dk is not None:
                 return b[1][dk][1][1]
-            if _closed_key(k) and k[0] != "c":
-                st_, _dk = self.dict_lookup(b[1], len(b) > 2 and b[2], k)
+            if _closed_key(kc):
+                st_, _dk = self.dict_lookup(b[1], len(b) > 2 and b[2], kc)
                 if st_ == "absent":
                     raise _Raise(("ext", "KeyError", []), "KeyError: %s" % show(k)[:40])
             return ("fn", "item", [b, k])
@@ -2120,6 +2120,13 @@ class Interp:
                     out.append(("cls", cc))
                     continue
                 v_ = self.class_const_value(kc, c, x)          # nested tables: (tag, class) pairs, name tuples, ...
+                if v_ == ("fn", "const", []) and isinstance(x, ast.Attribute) and not any(isinstance(y_, ast.Call) for y_ in ast.walk(x)):
+                    # a named constant of an imported class / module (Stream.EVENT_WRITE): the same value a method body
+                    # gets when it writes the same expression
+                    try:
+                        v_ = self.expr(x, {"@module": kc.module, "@owner": kc}, 1)
+                    except (NeedAtom, _Raise):
+                        v_ = ("fn", "const", [])
                 out.append(v_ if v_ != ("fn", "const", []) else ("fn", unparse(x), []))
             return ("list", out)
         if isinstance(ce, ast.Name) and ce.id in kc.consts:
